@@ -88,7 +88,7 @@ V1 = uuid.UUID("51c2f442-bf61-11f1-b9da-02fc00000001")
 V4_NCS = uuid.UUID("7e1c1b6e-2c2f-4c8b-1b8e-1d2a3b4c5d6e")
 DT = _dt.datetime(2020, 1, 2, 3, 4, 5)
 D = _dt.date(2020, 1, 2)
-WRONG = [None, "x", 1.5, True, [], {}, E, Nil, _OBJ, -1, b"b"]
+WRONG = [None, "x", 1.5, True, [], {}, E, Nil, _OBJ, -1, b"b", (1, 2), ()]
 
 I1 = Sch(S("int", call(1)))
 SA = Sch(S("str", call("a")))
